@@ -476,6 +476,19 @@ def run_case(case):
                         inp.__enter__()
                         entered = True
                     continue
+                if op == "nested_input":
+                    # another Input on the same terminal is entered and left inside this one's context (a nested prompt):
+                    # it makes no request, so it reads nothing; afterwards the outer one must work as before - its SIGINT
+                    # handler and the wake-up descriptor that ends a blocked request included
+                    if entered and setup == "pty":
+                        res.label("nested_input_entered_and_left")
+                        try:
+                            with ci.Input(in_stream=stream, keynames=keynames_arg, sigint_event=bool(step.get("sigint_event"))):
+                                pass
+                        except Exception as e:  # noqa
+                            res.viol("nested_input_context_raised", error=exc_str(e), case=case)
+                            break
+                    continue
                 if op == "arrive":
                     data = bytes.fromhex(step["data"])
                     if len(data) > 1024:
@@ -682,6 +695,7 @@ def strategy():
         st.fixed_dictionaries({"op": st.just("schedule"), "i": st.integers(0, 1), "dt": st.sampled_from([-1.0, 0.0, 0.02, 0.1, 0.1, 0.3, 5.0])}),
         st.fixed_dictionaries({"op": st.just("sigint")}),
         st.fixed_dictionaries({"op": st.just("reenter"), "requests_outside": st.lists(st.sampled_from([0, 0.01]), max_size=1)}),
+        st.fixed_dictionaries({"op": st.just("nested_input"), "sigint_event": st.booleans()}),
         st.fixed_dictionaries({"op": st.just("garbage"), "data": st.sampled_from(["c341", "e228a1", "fffe", "c3", "f09f98", "80", "e288", "c0af", "eda080", "1bc3a9"]),
                                "then": st.sampled_from([[], [], ["61", "1b5b41", "c3a9", "62"], ["1b5b313b3543", "7a", "e28882"]])}),
         st.fixed_dictionaries({"op": st.just("advance"), "dt": st.sampled_from([0.01, 0.05, 0.09, 0.1, 0.2, 1.0])}),
@@ -712,7 +726,13 @@ def strategy():
         + [{"op": "advance", "dt": 0.05}] + [{"op": "request", "timeout": 0, "during": [], "inject": None}] * t[2]
         + [{"op": "schedule", "i": t[1], "dt": t[0] - 0.05}, {"op": "advance", "dt": 1.0},
            {"op": "request", "timeout": 0, "during": [], "inject": None}, {"op": "request", "timeout": 0, "during": [], "inject": None}]))
-    step = st.one_of(step, step, step, step, step, step, step, step, sched_race, sigint_race, sigint_between, sched_equal)
+    # a nested Input entered and left, then a SIGINT (or a thread-safe event) that has to end a blocked request of the outer one
+    nested_then_wake = st.tuples(st.booleans(), st.sampled_from([0.5, None]), st.sampled_from([0.0, 0.005, 0.2]),
+                                 st.sampled_from(["sigint", "sigint", "ts"])).map(lambda t: [
+        {"op": "nested_input", "sigint_event": t[0]},
+        {"op": "request", "timeout": t[1], "inject": None,
+         "during": [{"act": "sigint", "at": t[2]} if t[3] == "sigint" else {"act": "fire", "kind": "ts", "i": 0, "at": t[2]}]}])
+    step = st.one_of(step, step, step, step, step, step, step, step, sched_race, sigint_race, sigint_between, sched_equal, nested_then_wake)
 
     def fix(case):
         if case.get("keynames", "bytes") != "bytes":
